@@ -256,6 +256,8 @@ func crashSignature(stderr string, exitCode int, killedFor string) string {
 		sig = killedFor
 	case exitCode == 97 || strings.Contains(stderr, "STEP-BUDGET"):
 		sig = "step-budget"
+	case strings.Contains(stderr, "VERIF-BLOCKED"):
+		sig = "blocked-forever"
 	case strings.Contains(stderr, "stack overflow"):
 		sig = "stack-overflow"
 	case strings.Contains(stderr, "all goroutines are asleep"):
